@@ -155,6 +155,7 @@ static void history_case(int kind, uint32_t S, int content, int mode, int bs, in
     char what[200], smp[240]; uint32_t len = 0, ann = 0; int r, oi = kind ? O_STRV : O_DOMB; uint16_t idx = kind ? 0x2023 : 0x2012;
     int db[1] = { 0 }, da[1] = { k0 }, dbs[1] = { 0 };
     int noabort = pkk >= 100;          /* pkk >= 100: abandoned after pkk - 100 requests WITHOUT a client abort - the next initiate request simply replaces the open transfer */
+    int resize = (content >> 2) & 3;       /* content bits 2,3: between the two transfers the application replaces the object by a shorter (1: half, 2: one byte) or a longer (3: +3 bytes) one */
     cl_crc = (content >> 1) & 1; content &= 1;      /* content bit 1: the block initiate requests carry the cc bit */
     w_restore(snap0); w_obs_clear();
     set_object(kind, S, content);
@@ -167,6 +168,7 @@ static void history_case(int kind, uint32_t S, int content, int mode, int bs, in
     cl_budget = -1;
     if (cl_stopped && !noabort) cl_client_abort(0);
     cl_stopped = 0;
+    if (resize) { uint32_t S2 = resize == 1 ? (S > 1 ? S / 2 : 1) : resize == 2 ? 1 : S + 3; set_object(kind, S2, !content); }     /* the object is the application's: new length, new bytes */
     w_obs_clear();
     cl_trace = 0; cl_frames = 0; cl_abort = 0; len = ann = 0;
     memset(BUF, 0xEE, sizeof BUF);
@@ -204,6 +206,11 @@ static void run_history(int tier)
                 history_case(kind, S, 2 * crc, 1, 3, pk, 100 + pkk, -1);
             }
             if (pkk == -1) { mc_case(9, 200, kind, (int)S, 2, 1, 3, pk, pkk, -1); history_case(kind, S, 2, 1, 3, pk, pkk, -1); }
+            /* the application replaces the object between the earlier transfer and the upload */
+            if ((pk == 3 || pk == 4) && (pkk == -1 || pkk == 2) && S + 3 < 900) for (int rz = 1; rz <= 3; rz++) for (int md = 0; md < 2; md++) {
+                mc_case(9, 200, kind, (int)S, 4 * rz, md, md ? 3 : 0, pk, pkk, -1);
+                history_case(kind, S, 4 * rz, md, md ? 3 : 0, pk, pkk, -1);
+            }
         }
     }
 }
